@@ -305,3 +305,171 @@ func loadDump(all *mpb.AllMetrics) error {
 	defer metrics.SetMetricsDumpFilePath("")
 	return metrics.LoadMetricsFromDump()
 }
+
+// (c) crossing the allowance while connected: a user starts within its quota,
+// a first session pushes the counted traffic at least 1 MiB past it, and a
+// second session opened afterwards - multiplexed on the connection that is
+// already authenticated, or on a new one - must be refused like any other.
+
+type CrossCase struct {
+	UDP       bool   `json:"udp,omitempty"`
+	Multiplex int    `json:"multiplex"` // 0 = every session gets its own connection
+	QuotaMB   int    `json:"quotaMB"`
+	Days      int    `json:"days"`
+	MarginKB  int    `json:"marginKB"` // the user starts this far below the allowance
+	UpKB      int    `json:"upKB"`
+	DownKB    int    `json:"downKB"`
+	KeepOpen  bool   `json:"keepOpen,omitempty"` // the first session stays open while the second is dialled
+	Salt      uint64 `json:"salt"`
+}
+
+func genCross(t *rapid.T) CrossCase {
+	c := CrossCase{
+		UDP:       rapid.IntRange(0, 2).Draw(t, "udp") == 0,
+		Multiplex: rapid.SampledFrom([]int{0, 1, 3, 4}).Draw(t, "multiplex"),
+		QuotaMB:   rapid.SampledFrom([]int{1, 2, 5}).Draw(t, "mb"),
+		Days:      rapid.SampledFrom([]int{1, 7, 30}).Draw(t, "days"),
+		MarginKB:  rapid.SampledFrom([]int{100, 150, 400}).Draw(t, "margin"),
+		KeepOpen:  rapid.Bool().Draw(t, "keepOpen"),
+		Salt:      rapid.Uint64().Draw(t, "salt"),
+	}
+	if c.UDP && c.MarginKB > 150 {
+		c.MarginKB = 150 // keep the UDP transfer near 1.2 MiB
+	}
+	// the first session moves margin + 1 MiB + a little, split between the directions
+	total := c.MarginKB + 1024 + rapid.SampledFrom([]int{40, 200}).Draw(t, "extra")
+	c.UpKB = total * rapid.SampledFrom([]int{10, 50, 90}).Draw(t, "upShare") / 100
+	c.DownKB = total - c.UpKB
+	return c
+}
+
+func preloadUpload(user string, kib int64, age time.Duration) error {
+	up := counter(user, metrics.UserMetricUploadBytes)
+	counter(user, metrics.UserMetricDownloadBytes)
+	pbm := metrics.ToMetricPB(up)
+	v := kib * 1024
+	pbm.Value = &v
+	pbm.History = []*mpb.History{histEntry(time.Now().Add(-age).UnixMilli(), v)}
+	m, err := metrics.FromMetricPB(pbm)
+	if err != nil {
+		return err
+	}
+	return loadDump(allMetrics(fmt.Sprintf(metrics.UserMetricGroupFormat, user), metrics.ToMetricPB(m)))
+}
+
+func chunks(totalKB int) []int {
+	var ws []int
+	for rem := totalKB * 1024; rem > 0; {
+		w := 32768
+		if rem < w {
+			w = rem
+		}
+		ws = append(ws, w)
+		rem -= w
+	}
+	return ws
+}
+
+func propCross(c CrossCase) (o pbt.Outcome) {
+	name := fmt.Sprintf("x%d-%d", os.Getpid(), userSeq.Add(1))
+	users := []e2e.UserSpec{{Name: name, Password: "pw"}}
+	if err := preloadUpload(name, int64(c.QuotaMB)*1024-int64(c.MarginKB), time.Hour); err != nil {
+		o.Failf("harness", "preload: %v", err)
+		return
+	}
+	cfg := e2e.Config{UDP: c.UDP, Users: users, Multiplex: c.Multiplex, Quotas: map[int][][2]int32{0: {{int32(c.Days), int32(c.QuotaMB)}}}}
+	sn := simnet.NewStreamNet(simnet.StreamOpts{Record: true})
+	pn := simnet.NewPacketNet()
+	tStart := time.Now()
+	env, err := e2e.Start(cfg, sn, pn)
+	if err != nil {
+		o.Failf("start", "start: %v", err)
+		return
+	}
+	defer env.StopBounded(3 * time.Second)
+	upC, downC := counter(name, metrics.UserMetricUploadBytes), counter(name, metrics.UserMetricDownloadBytes)
+	up0, down0 := upC.Load(), downC.Load()
+	o.Label("udp=%v", c.UDP)
+	o.Label("multiplex=%d", c.Multiplex)
+	o.Label("keepOpen=%v", c.KeepOpen)
+
+	// first session: within the allowance when it opens
+	res := e2e.RunTransfer(env, []e2e.SessProg{{Up: e2e.DirProg{Writes: chunks(c.UpKB)}, Down: e2e.DirProg{Writes: chunks(c.DownKB)}}},
+		e2e.TransferOpts{Salt: c.Salt, StallAfter: 30 * time.Second, MaxWall: 90 * time.Second, KeepOpen: c.KeepOpen})
+	s := res.Sessions[0]
+	if s.OpenErr != "" || !s.Up.DoneReading || !s.Down.DoneReading {
+		if res.Stalled || s.OpenErr != "" {
+			o.Failf("wrongly-refused", "a user %d KiB below its %d MB allowance was not served: %+v", c.MarginKB, c.QuotaMB, s)
+		} else {
+			o.Inconclusive = "first session incomplete at the wall budget"
+		}
+		return
+	}
+	wantUp := int64(e2e.Socks5RequestLen(0)) + int64(c.UpKB)*1024
+	wantDown := int64(10) + int64(c.DownKB)*1024
+	if gotUp, gotDown := upC.Load()-up0, downC.Load()-down0; gotUp != wantUp || gotDown != wantDown {
+		o.Failf("accounting", "the server application read %d and wrote %d bytes, the user's counters grew by %d and %d", wantUp, wantDown, gotUp, gotDown)
+		return
+	}
+	over := (upC.Load()+downC.Load())/1048576 > int64(c.QuotaMB)
+	if !over {
+		o.Inconclusive = "the first session did not cross the allowance"
+		return
+	}
+	linksBefore := len(sn.Links())
+	up1, down1 := upC.Load(), downC.Load()
+
+	// second session: must be refused
+	ctx, cancel := context.WithTimeout(context.Background(), 15*time.Second)
+	conn, derr := env.Dial(ctx, 1)
+	cancel()
+	if derr == nil {
+		buf := make([]byte, 1)
+		conn.SetReadDeadline(time.Now().Add(2 * time.Second))
+		_, rerr := conn.Read(buf)
+		conn.Close()
+		if rerr == nil {
+			o.Failf("quota-not-enforced", "the user is now %d KiB over its %d MB quota, yet a new session was served", (upC.Load()+downC.Load())/1024-int64(c.QuotaMB)*1024, c.QuotaMB)
+			return
+		}
+	}
+	reused := !c.UDP && len(sn.Links()) == linksBefore
+	o.Label("secondSessionOnTheSameConnection=%v", reused)
+	o.NonTrivial = reused || c.UDP
+	sawQuotaStatus := false
+	for end := time.Now().Add(3 * time.Second); !sawQuotaStatus && time.Now().Before(end); time.Sleep(10 * time.Millisecond) {
+		if c.UDP {
+			dg, _ := pn.Snapshot()
+			for _, d := range e2e.DecodeDatagrams(dg, 7000, users, tStart, time.Now()) {
+				if d.Seg != nil && !d.FromClient && d.Seg.Meta.Proto == refproto.CloseSessionRequest && d.Seg.Meta.Status == 1 {
+					sawQuotaStatus = true
+				}
+			}
+		} else {
+			for _, l := range e2e.DecodeLinks(sn, users, tStart, time.Now()) {
+				for _, seg := range l.S2C {
+					if seg.Meta.Proto == refproto.CloseSessionRequest && seg.Meta.Status == 1 {
+						sawQuotaStatus = true
+					}
+				}
+			}
+		}
+	}
+	relUp, relDown := upC.Load()-up1, downC.Load()-down1
+	if relDown > 20 || relUp > 4*int64(e2e.Socks5RequestLen(1)) {
+		o.Failf("quota-relayed", "over quota, second session (same connection: %v): %d upload / %d download bytes were relayed", reused, relUp, relDown)
+		return
+	}
+	if !sawQuotaStatus {
+		o.Failf("quota-status-after-crossing", "the second session of a user now over its quota was refused without the quota status on the wire (same connection: %v, dial error: %v)", reused, derr)
+		return
+	}
+	if relDown != 0 {
+		o.Failf("quota-relayed/handshake-reply-raced-the-refusal", "over quota, second session: the application's %d-byte immediate reply was relayed before the refusal", relDown)
+	}
+	return
+}
+
+func TestC19Cross(t *testing.T) {
+	pbt.Run(t, "C19", "cross", genCross, propCross)
+}
